@@ -110,13 +110,3 @@ Proof.
   cbn [ores]. rewrite obs_eqb_refl. reflexivity.
 Qed.
 
-Lemma model_satisfies_checker i : wf_in i -> check_case i (run_case i) = true.
-Proof.
-  destruct i; intros Hwf; try reflexivity.
-  - apply check_html.
-  - apply check_url. exact Hwf.
-  - cbn [check_case run_case ostr]. apply replace_lt_slash_clean.
-  - apply check_utf8.
-  - apply check_touni.
-  - apply check_qsrt. exact Hwf.
-Qed.
